@@ -18,6 +18,12 @@ Fixpoint ins (k v : bytes) (m : smap) : smap :=
       end
   end.
 
+Fixpoint sdel (k : bytes) (m : smap) : smap :=
+  match m with
+  | [] => []
+  | (k', v') :: tl => if beq k k' then tl else (k', v') :: sdel k tl
+  end.
+
 Fixpoint sget (m : smap) (k : bytes) : option bytes :=
   match m with
   | [] => None
